@@ -109,5 +109,16 @@ package expressions
 //@   loop 1 invariant opt_out(ret) + sb_content(addrof(sb)) == opt_in(ret)
 //@ func (*CompiledKeyBuilder).joinStages
 //@   modifies world except KeyBuilder
+// the joined stage is itself a stage: it writes nothing but its own local builder (so it can be
+// evaluated re-entrantly and from several goroutines) and yields the concatenation of ALL stages
+//@ smt
+//@ (define-fun-rec cat_n ((cn!a (Array Int Int)) (cn!o Int) (cn!c Int) (cn!n Int) (cn!emp Str)) Str
+//@   (ite (<= cn!n 0) cn!emp (scat (cat_n cn!a cn!o cn!c (- cn!n 1) cn!emp) (app (select cn!a (+ cn!o (- cn!n 1))) cn!c))))
+//@ end
+//@ func (*CompiledKeyBuilder).joinStages$1
+//@   pure
+//@   ensures [concatenation] result == cat_n(arr((*s).stages), off((*s).stages), context, len((*s).stages), "")
+//@   loop 1 invariant ref(rangeslice()) == ref((*s).stages) && off(rangeslice()) == off((*s).stages) && len(rangeslice()) == len((*s).stages)
+//@   loop 1 invariant rangeindex + 1 <= len((*s).stages) && sb_content(addrof(sb)) == cat_n(arr((*s).stages), off((*s).stages), context, rangeindex + 1, "")
 //@ func (*CompilerErrors).add
 //@   modifies world except KeyBuilder
